@@ -43,6 +43,7 @@ def run(p: Project, tier: str) -> Result:
         binding_checks(p, w, r, 'C02.R3', which=('binder', 'arrival', 'get', 'cancel'))
         check_lockstep(p, w, r, 'C02.R4')
     check_wrap(p, ws, r, 'C02.R2')
+    check_index_agreement(ws, r)
     return r
 
 
@@ -508,3 +509,30 @@ def check_lockstep(p, w, r, rule):
             r.ok(rule, key, 'in step', f, line)
         else:
             r.fail(rule, key, rec['why'], f, line, rec['pa'].describe())
+
+
+def check_index_agreement(ws, r):
+    """R5: `L.pop(i)` / `L.insert(i, x)` / `del L[i]` with an index obtained by `M.index(y)` needs M is L (or its lock-step twin
+    reserved_events / reserved_items): an index looked up in one list and applied to another removes an unrelated element."""
+    r.rule('C02.R5', 'an index obtained from `M.index(x)` is only applied to M (or to the list kept in lock-step with it)', 8)
+    sites = {}
+    for w in ws:
+        TWINS = {frozenset((RE, RI))}
+        if not w.store.has_ri:
+            TWINS.add(frozenset((RE, w.store.avail)))       # positional binding: reserved_events[k] owns <available list>[k]
+        for root, ps in w.roots.items():
+            for pa in ps:
+                for e in pa.events:
+                    if e.kind == 'op' and e.op in ('pop', 'insert') and e.idx is not None and e.idx[0] == 'index':
+                        key = site(e.fi, e.node, f'index-agreement:{e.list}.{e.op}')
+                        rec = sites.setdefault(key, {'ok': True, 'e': e, 'pa': pa, 'why': ''})
+                        src_list = e.idx[1]
+                        if src_list != e.list and frozenset((src_list, e.list)) not in TWINS and rec['ok']:
+                            rec.update(ok=False, pa=pa, why=f'`{e.list}.{e.op}` uses an index that was looked up in `{src_list}`: the element at that position of '
+                                                              f'`{e.list}` is unrelated (wrong item removed, or ValueError / IndexError)')
+    for key, rec in sorted(sites.items()):
+        e = rec['e']
+        if rec['ok']:
+            r.ok('C02.R5', key, 'index and operation refer to the same list', src(e.fi.module), e.line)
+        else:
+            r.fail('C02.R5', key, rec['why'], src(e.fi.module), e.line, rec['pa'].describe())
